@@ -918,16 +918,30 @@ fn canonicalise_undefined_symbols<'data, P: Platform>(
     undefined_symbols.sort_by_key(|u| usize::MAX - u.symbol_id.as_usize());
 
     for undefined in undefined_symbols {
-        let is_defined = undefined.ignore_if_loaded.is_some_and(|file_id| {
+        let is_defined = undefined.ignore_if_loaded.is_some() && {
+            // The definition that we found when we resolved the reference might since have been
+            // replaced by a definition from another file, e.g. if the first file to define the
+            // symbol was an archive entry that didn't get loaded, so check the file that provides
+            // the definition we ended up selecting.
+            let file_id = symbol_db.file_id_for_symbol(symbol_db.definition(undefined.symbol_id));
             !matches!(
                 groups[file_id.group()].files[file_id.file()],
                 ResolvedFile::NotLoaded(_)
             )
-        });
+        };
 
         if is_defined {
-            // The archive entry that defined the symbol in question ended up being loaded, so the
-            // weak symbol is defined after all.
+            // A file that defines the symbol in question ended up being loaded, so the weak symbol
+            // is defined after all. The definition might not be the one that we applied the
+            // reference's visibility to when we resolved it, so do that again.
+            let visibility = symbol_db.input_symbol_visibility(undefined.symbol_id);
+            if visibility != Visibility::Default {
+                symbol_db::apply_visibility_to_definition(
+                    per_symbol_flags,
+                    symbol_db.definition(undefined.symbol_id),
+                    visibility,
+                );
+            }
             continue;
         }
 
